@@ -11,6 +11,7 @@ from harness.props import common, c02
 LEVEL = "proof"
 
 ATOMS = [("ge", 0, 1), ("ge", 1, 1), ("pz", 0), ("pz", 2), ("raises", 1), ("in", "m.a"), ("in", "#m.a.x"), ("in", "b"), ("in", "x"),
+         ("in", ".x"), ("in", ".a"), ("in", "a.x"), ("in", "#x"), ("in", "m"), ("in", ""),
          ("missing", 2)]
 
 
